@@ -51,7 +51,20 @@ def run(prop, tier):
     if prop == "C03":
         from . import schedules
         extra_jobs = schedules.jobs(tier)
-    return life.run_property(prop, tier, p["scen"], p["per"], COMMON_ASSUMPTIONS + p["extra"], p["rule"], extra_jobs=extra_jobs)
+    rc = life.run_property(prop, tier, p["scen"], p["per"], COMMON_ASSUMPTIONS + p["extra"], p["rule"], extra_jobs=extra_jobs)
+    if prop in ("C02", "C04"):
+        # design-level I-layer (information in the evidence; a drift of the I-layer is a machinery failure, never a verdict)
+        import json, os
+        from . import lifeimpl
+        info, st, tr = lifeimpl.run(prop)
+        path = os.path.join(common.EVID, prop + ".json")
+        doc = json.load(open(path))
+        doc["coverage"]["structural_model"] = info
+        doc["coverage"]["states"] += st
+        doc["coverage"]["transitions"] += tr
+        common.write_evidence(prop, doc["tier"], doc["coverage"], doc["wall_s"], doc["violations"], doc["assumptions"])
+        print("%s %s: I-layer LifeImpl: %s" % (prop, tier, ", ".join("%s -> %s" % (k, v["theorems_violated"] or "all theorems hold") for k, v in info["configs"].items())))
+    return rc
 
 
 def replay(prop, payload):
